@@ -356,6 +356,22 @@ class Facts:
                 return it['def']
         return None
 
+    def method(self, trait, self_ty, name):
+        """def path of method `name` in the impl of `trait` (exact path, or None for inherent) for `self_ty`"""
+        for i in self.impls:
+            if i.get('trait') == trait and (i.get('self_ty') == self_ty or i.get('self_adt') == self_ty):
+                for it in i['items']:
+                    if it['name'] == name:
+                        return it['def']
+        raise AnalysisIncomplete(f'anchor: impl {trait} for {self_ty} :: {name} not found in configuration `{self.config}`')
+
+    def has_method(self, trait, self_ty, name):
+        try:
+            self.method(trait, self_ty, name)
+            return True
+        except AnalysisIncomplete:
+            return False
+
     def rel(self, path):
         """file path relative to the repo root"""
         if path and path.startswith(self.repo):
